@@ -7,6 +7,24 @@ VERIF = os.path.dirname(os.path.dirname(os.path.abspath(__file__)))
 ALL = ["C%02d" % i for i in range(1, 18)]
 
 CHECKS = {
+    "C09": dict(
+        level="model_checking", design="6 (C09), 3.9",
+        text="Format.tla (document history machine: Format / Relayout(k) / Compile; ems never changes, errors only on invalid "
+             "text, compile sees ems only) is model-checked and its histories (length <= 3) enumerated by TLC; each is replayed "
+             "on syntax-rich documents through the real library formatter and the real compiler; a comment is inserted at every "
+             "token boundary (same line / own line) and brace-dropping / truncating mutations give invalid texts. Every recorded "
+             "step (ems of the output by an independent tokenizer, parse status, compile digest) is validated by TLC against "
+             "TraceFormat.tla.",
+        note="Trusted: the harness tokenizer (cross-checked against the ANTLR token stream on every run). The document set is "
+             "hand-written (harness/docs.py); 194 comment positions the formatter drops are recorded as known findings.",
+        technique="TLC model checking of Format.tla + TLC-enumerated histories replayed into the formatter/compiler + TLC trace validation"),
+    "C10": dict(
+        level="model_checking", design="6 (C10), 3.9",
+        text="Same machinery as C09; the verdicts are idempotence (Format;Format returns the same text) and layout canonicity "
+             "(Relayout(k);Format equals Format of the original for k in one-token-per-line, fewest lines, tabs+CRLF, blank "
+             "lines, seeded random), for every history TLC enumerates and every comment-at-boundary document.",
+        note="Same trusted base as C09; canonicity is only judged when the token stream survived (a lost comment is C09's).",
+        technique="TLC model checking of Format.tla + replay of Format/Relayout histories + TLC trace validation"),
     "C12": dict(
         level="model_checking", design="6 (C12), 3.4",
         text="Validate.tla states well-formedness twice (declarative IllFormed, operational Check machine in the compiler's "
